@@ -118,7 +118,7 @@ structure Out2x (α : Type) where
   nref : α              --                                      (PerCm3ToPerM3)
   tref : α
   sref : α              --                                      (normalisation)
-  deriving BEq, Repr
+  deriving BEq, Repr, DecidableEq
 
 /-- `for index in range(ndt): sv[:, index] = readvalues(file, neb, 8)` -/
 def readCols (field : ℓ → Nat → Option α) (neb : Nat) : Nat → List ℓ → Except Err (List (List α) × List ℓ)
@@ -247,7 +247,7 @@ structure Rate12 (α : Type) where
   zref : α
   bref : α
   qref : α             -- Cm3ToM3
-  deriving BEq, Repr
+  deriving BEq, Repr, DecidableEq
 
 /-- adf12.py `_parse_block` -/
 def parseBlock12 (lex : Lex12 ℓ α) (lines : List ℓ) : Except Err (((Nat × Nat) × Rate12 α) × List ℓ) := do
@@ -601,7 +601,7 @@ structure Rate15 (α : Type) where
   ne : List α            -- PerCm3ToPerM3
   te : List α            -- as written
   rate : List (List α)   -- rate[i_ne][i_te]   Cm3ToM3
-  deriving BEq, Repr
+  deriving BEq, Repr, DecidableEq
 
 /-- one scraped index entry -/
 structure Entry15 (ω σ : Type) where
@@ -761,6 +761,7 @@ structure Out15 (α ω σ : Type) where
   recombination : List (Trans σ × Rate15 α)
   thermalcx : List (Trans σ × Rate15 α)
   wavelength : List (Trans σ × ω)           -- Angstrom / 10
+  deriving DecidableEq
 
 /-- config[cls][...][transition] = block_num in scraping order -/
 def configOf [DecidableEq σ] (es : List (Entry15 ω σ)) (t : RateType) : List (Trans σ × Nat) :=
